@@ -86,6 +86,7 @@ def extract_trigger(md):
 
 
 def run(d, props=None):
+    d = os.path.abspath(d)
     meta = json.load(open(os.path.join(d, 'meta.json')))
     props = props or [meta['property']]
     patch = os.path.join(d, 'patch.diff')
